@@ -170,10 +170,17 @@ pub fn run(em: &mut Emit, thorough: bool, seed: u64) {
     let tmax = chrono::DateTime::<chrono::Utc>::MAX_UTC.fixed_offset();
     let tmin = chrono::DateTime::<chrono::Utc>::MIN_UTC.fixed_offset();
     let t0 = chrono::DateTime::parse_from_rfc3339("2000-01-01T00:00:00+02:00").unwrap();
-    for t in [tmax, tmin, t0] {
+    // the limit instants seen from other offsets: the local date then lies beyond the limit date
+    let off = |t: chrono::DateTime<chrono::FixedOffset>, o: i32| t.with_timezone(&chrono::FixedOffset::east_opt(o).unwrap());
+    let mut limits = vec![tmax, tmin, t0];
+    for o in [-86399, -50400, -3600, -60, -1, 1, 60, 3600, 50400, 86399] {
+        limits.push(off(tmin, o));
+        limits.push(off(tmax, o));
+    }
+    for t in limits.iter().copied() {
         for d in [chrono::Duration::nanoseconds(1), chrono::Duration::nanoseconds(-1), chrono::Duration::nanoseconds(i64::MAX),
                   chrono::Duration::nanoseconds(i64::MIN + 1), chrono::Duration::MAX, chrono::Duration::MIN, chrono::Duration::zero()] {
-            for u in [tmax, tmin, t0] {
+            for u in [tmax, tmin, t0, off(tmin, -3600), off(tmax, 3600)] {
                 arith(em, t, d, u, "arith-limits");
             }
         }
